@@ -50,7 +50,7 @@ def generate(tier, seed):
         lines += ["BODY fl"]
         nt.add((call, a, b))
     # programs without assignments evaluated three times
-    for _ in range(800 if tier == "quick" else 20000):
+    for _ in range(2500 if tier == "quick" else 80000):
         g = ProgGen(rng, max_depth=3, ticks=False, errors=False)
         p = g.program(1)
         if "setq" in p or "(set " in p: continue
